@@ -114,7 +114,8 @@ def mypy_expression_to_sds_type(expr: mp_nodes.Expression) -> sds_types.Abstract
     elif isinstance(expr, mp_nodes.UnaryExpr):
         return mypy_expression_to_sds_type(expr.expr)
 
-    raise TypeError("Unexpected expression type.")  # pragma: no cover
+    # The type of any other expression (e.g. "a + b" or "x.y") cannot be named without evaluating it
+    return sds_types.UnknownType()
 
 
 def mypy_expression_to_python_value(
